@@ -164,6 +164,15 @@ func (c *Conn) Created() []*Stream {
 
 func (n *Net) Conn(opts ConnOpts) *Conn { return &Conn{net: n, opts: opts} }
 
+// HoldNew makes streams opened through this connection from now on start with
+// manual delivery (and the given capacity).
+func (c *Conn) HoldNew(capacity int) {
+	c.net.mu.Lock()
+	defer c.net.mu.Unlock()
+	c.opts.Auto = false
+	c.opts.Capacity = capacity
+}
+
 type addr string
 
 func (a addr) Network() string { return "mem" }
@@ -242,11 +251,12 @@ func (c *Conn) NewStream(ctx context.Context, desc *grpc.StreamDesc, method stri
 	n := c.net
 	n.mu.Lock()
 	ent, ok := n.services[method]
+	copts := c.opts
 	n.mu.Unlock()
 	if err := ctx.Err(); err != nil {
 		return nil, status.FromContextError(err).Err()
 	}
-	s := &Stream{net: n, Method: method, opts: c.opts, auto: c.opts.Auto}
+	s := &Stream{net: n, Method: method, opts: copts, auto: copts.Auto}
 	s.cctx, s.ccancel = context.WithCancel(ctx)
 	md, _ := metadata.FromOutgoingContext(ctx)
 	md = md.Copy()
